@@ -1368,7 +1368,7 @@ class Interp:
     def call(self, f, args, kwargs=None, node=None):
         kwargs = kwargs or {}
         if isinstance(f, InterpFunction):
-            c = self.reg.by_nested.get(f.qualname) if self.reg.by_nested else None
+            c = self.reg.by_nested.get(f"{f.globals.get('__name__')}.{f.qualname}") if self.reg.by_nested else None
             # (the function under proof is entered through invoke(), so a call seen here is a call site - also a recursive one)
             if c is not None and c.use_contract_at(self, args, kwargs):
                 from .contracts import _apply
